@@ -64,7 +64,10 @@ func flowCtx(t *rapid.T) Ctx {
 
 func (g *sgen) pick(n int, l string) int { return rapid.IntRange(0, n-1).Draw(g.t, l) }
 
-var textCores = []string{"", "x", "ab", "<p>", "</p>", ".", "é", "T", "(", "}", "%", "#", "a b", "-", "'", "\""}
+// (the last six begin and end with characters that Unicode calls space but that are content:
+// a dash removes blanks, tabs, CR and LF only)
+var textCores = []string{"", "x", "ab", "<p>", "</p>", ".", "é", "T", "(", "}", "%", "#", "a b", "-", "'", "\"",
+	"\u00a0", "\u00a0x\u00a0", "\fq\v", "\u2028w\u2029", "\u0085", "\u3000z\u2003"}
 var wsRuns = []string{"", " ", "  ", "\n", "\t", " \n ", "\r\n", "\n\n"}
 
 func (g *sgen) text() *S {
